@@ -2,6 +2,7 @@ package sim
 
 import (
 	"bytes"
+	"os"
 	"fmt"
 	"io"
 	"net/http"
@@ -323,8 +324,29 @@ func (w *World) QueueEvent(queue, kind string) {
 		}
 	}
 	w.QEvents = append(w.QEvents, QRec{Step: w.step, Inc: w.inc, Queue: queue, Kind: kind, Gid: gid, Time: time.Since(w.start)})
-	w.asyncLog = append(w.asyncLog, "q "+queue+" "+kind)
+	if traceQ {
+		pcs := make([]uintptr, 40)
+		n := runtime.Callers(2, pcs)
+		fr := runtime.CallersFrames(pcs[:n])
+		var names []string
+		for {
+			f, more := fr.Next()
+			fn := f.Function
+			if i := strings.LastIndex(fn, "/"); i >= 0 {
+				fn = fn[i+1:]
+			}
+			names = append(names, fn)
+			if !more {
+				break
+			}
+		}
+		w.asyncLog = append(w.asyncLog, fmt.Sprintf("q %s %s  [%03d gid=%d t=%v] %s", queue, kind, len(w.QEvents), gid, time.Since(w.start), strings.Join(names, " < ")))
+	} else {
+		w.asyncLog = append(w.asyncLog, "q "+queue+" "+kind)
+	}
 }
+
+var traceQ = os.Getenv("DST_TRACEQ") != ""
 
 // ReportError is installed as a utilruntime error handler.
 func (w *World) ReportError(msg string) {
